@@ -278,6 +278,20 @@ pub fn main(args: &Args) -> i32 {
             }
         };
     }
+    // harvested family: the accepted definitions that ship with the repository - their literal tokens (operators,
+    // brackets, keywords next to identifier patterns) must match verbatim, their ignore(case) patterns like (?i)
+    for h in model::harvest::harvest() {
+        if prepare(&h.def).is_err() {
+            continue;
+        }
+        run.count("harvested_defs", 1);
+        if let Err((input, msg)) = check(&h.def, &mut run) {
+            run.violations = 1;
+            report_violation("C10", &args.replay_dir, &json!({"property": "C10", "tier": "G", "origin": h.origin, "def": h.def, "rendered_rust": model::prep::render(&h.def), "input_hex": hex(&input), "input": show(&input), "findings": [{"property": "C10", "what": msg}]}));
+            run.write_evidence(&args.evidence);
+            return 1;
+        }
+    }
     let cases = if args.cases > 0 { args.cases } else if args.thorough() { 50000 } else { 5000 };
     let res = drive(&literal_defs(), cases, args.seed ^ 0xC10, 600, &mut run, |def, run| check(def, run).map_err(|e| e.1));
     let code = match res {
